@@ -38,8 +38,8 @@ fn vx_estimate_wait_time(previous_count: usize, current_count: usize, limit_for_
 { unimplemented!() }
 /// std::sync::Mutex (R8): a critical section is atomic; between two sections any contracted operation of another task may have run
 #[verifier::external_body]
-pub fn vx_lock<'a>(m: &'a Arc<Mutex<RateLimiterStateInner>>, clk: &Clock) -> (r: &'a mut RateLimiterStateInner)
-    ensures r.wf(*clk), r.timeout() == m.timeout@,   // the configured timeout never changes (#configuration_unchanged on every kernel operation)
+pub fn vx_lock<'a>(m: &'a Arc<Mutex<RateLimiterStateInner>>, clk: &Clock, Tracked(gh): Tracked<&mut AdmLog>) -> (r: &'a mut RateLimiterStateInner)
+    ensures r.wf(*clk), r.wf_adm(*final(gh), *clk), r.timeout() == m.timeout@,   // the configured timeout never changes (#configuration_unchanged on every kernel operation)
 { unimplemented!() }
 pub struct Mutex<T> { pub id: Ghost<int>, pub timeout: Ghost<Duration>, pub p: core::marker::PhantomData<T> }
 
@@ -62,6 +62,52 @@ pub open spec fn sorted_upto(s: Seq<Instant>, now: nat) -> bool {
 /// entries of the log still inside the window at `now` (the log is sorted, so they form a suffix)
 pub open spec fn live_log(s: Seq<Instant>, now: nat, w: nat) -> Seq<Instant> decreases s.len() {
     if s.len() > 0 && now >= s[0].t && now - s[0].t >= w { live_log(s.drop_first(), now, w) } else { s }
+}
+
+/// ghost: every admission of this limiter through the sliding log, oldest first
+pub tracked struct AdmLog { pub ghost adm: Seq<nat> }
+pub open spec fn times(s: Seq<Instant>) -> Seq<nat> { Seq::new(s.len(), |i: int| s[i].t as nat) }
+/// C02 (sliding log): any limit+1 consecutive admissions span at least the window
+pub open spec fn spaced(adm: Seq<nat>, limit: nat, w: nat) -> bool {
+    forall|i: int| 0 <= i && i + limit < adm.len() ==> #[trigger] adm[i + limit as int] - adm[i] >= w
+}
+/// what live_log keeps is a suffix; everything it drops is at least w old
+pub proof fn lemma_live_suffix(s: Seq<Instant>, now: nat, w: nat)
+    ensures ({ let k = s.len() - live_log(s, now, w).len();
+        &&& 0 <= k <= s.len()
+        &&& live_log(s, now, w) == s.subrange(k, s.len() as int)
+        &&& forall|j: int| 0 <= j < k ==> now >= (#[trigger] s[j]).t && now - s[j].t >= w }),
+    decreases s.len(),
+{
+    if s.len() > 0 && now >= s[0].t && now - s[0].t >= w {
+        let r = s.drop_first();
+        lemma_live_suffix(r, now, w);
+        let k1 = r.len() - live_log(r, now, w).len();
+        assert(live_log(s, now, w) == live_log(r, now, w));
+        assert(r.subrange(k1, r.len() as int) =~= s.subrange(k1 + 1, s.len() as int));
+        assert forall|j: int| 0 <= j < k1 + 1 implies now >= (#[trigger] s[j]).t && now - s[j].t >= w by {
+            if j > 0 { assert(s[j] == r[j - 1]); }
+        }
+    } else {
+        assert(s.subrange(0, s.len() as int) =~= s);
+    }
+}
+/// admitting at `now` when fewer than `limit` admissions are still inside the window keeps the spacing
+pub proof fn lemma_admit(adm: Seq<nat>, k: nat, now: nat, w: nat, limit: nat)
+    requires spaced(adm, limit, w), k <= adm.len(), k < limit,
+        forall|j: int| 0 <= j < adm.len() - k ==> now >= #[trigger] adm[j] && now - adm[j] >= w,
+    ensures spaced(adm.push(now), limit, w),
+{
+    let a2 = adm.push(now);
+    assert forall|i: int| 0 <= i && i + limit < a2.len() implies #[trigger] a2[i + limit as int] - a2[i] >= w by {
+        if i + limit < adm.len() {
+            assert(a2[i + limit as int] == adm[i + limit as int] && a2[i] == adm[i]);
+        } else {
+            assert(a2[i + limit as int] == now);
+            assert(i < adm.len() - k);
+            assert(a2[i] == adm[i]);
+        }
+    }
 }
 
 impl FixedWindowState {
@@ -102,10 +148,29 @@ impl SlidingLogState {
     pub open spec fn wf(&self, clk: Clock) -> bool {
         self.request_log@.len() <= self.limit_for_period && sorted_upto(self.request_log@, clk.now@) && self.limit_for_period >= 1 && self.window_duration.nanos > 0
     }
-    pub fn try_acquire<Req, Res, E>(&mut self, clk: &mut Clock, Tracked(tr): Tracked<&mut Trace<Req, Res, E>>) -> (r: AcquireResult)
-        requires old(self).wf(*old(clk)),
+    /// the log is the not-yet-evicted suffix of the admission history, everything before it is older than the window, and the
+    /// whole history is spaced: any limit+1 consecutive admissions span at least window_duration
+    pub open spec fn wf_adm(&self, gh: AdmLog, clk: Clock) -> bool {
+        let n = gh.adm.len() as int;
+        let k = self.request_log@.len() as int;
+        &&& k <= n
+        &&& times(self.request_log@) =~= gh.adm.subrange(n - k, n)
+        &&& forall|j: int| 0 <= j < n - k ==> clk.now@ >= #[trigger] gh.adm[j] && clk.now@ - gh.adm[j] >= self.window_duration.nanos
+        &&& spaced(gh.adm, self.limit_for_period as nat, self.window_duration.nanos as nat)
+    }
+    pub fn new(limit_for_period: usize, window_duration: Duration, timeout_duration: Duration) -> (r: Self)
+        requires limit_for_period >= 1, window_duration.nanos > 0,
+        ensures
+            forall|clk: Clock| #![trigger r.wf(clk)] r.wf(clk) && r.wf_adm(AdmLog { adm: Seq::empty() }, clk),   // #starts_with_an_empty_log_and_history [C02]
+            r.request_log@.len() == 0 && r.limit_for_period == limit_for_period && r.window_duration == window_duration && r.timeout_duration == timeout_duration,   // #keeps_configuration [C02,C15]
+    //@body SlidingLogState::new
+
+    pub fn try_acquire<Req, Res, E>(&mut self, clk: &mut Clock, Tracked(tr): Tracked<&mut Trace<Req, Res, E>>, Tracked(gh): Tracked<&mut AdmLog>) -> (r: AcquireResult)
+        requires old(self).wf(*old(clk)), old(self).wf_adm(*old(gh), *old(clk)),
             forall|i: int| 0 <= i < old(self).request_log@.len() ==> (#[trigger] old(self).request_log@[i]).t + old(self).window_duration.nanos <= u128::MAX,   // domain: instant + window representable
         ensures
+            final(self).wf_adm(*final(gh), *final(clk)),   // #any_limit_plus_one_consecutive_admissions_span_at_least_the_window [C02]
+            final(gh).adm == (if r == zero() { old(gh).adm.push(final(clk).now@) } else { old(gh).adm }),   // #admission_history_grows_exactly_when_admitted [C02]
             final(self).wf(*final(clk)),   // #log_sorted_and_at_most_limit_entries [C02]
             final(self).limit_for_period == old(self).limit_for_period && final(self).window_duration == old(self).window_duration && final(self).timeout_duration == old(self).timeout_duration,   // #configuration_unchanged [C02]
             // exactly the entries at least window_duration old are evicted; then admitted iff fewer than limit remain, logging `now`
@@ -124,6 +189,12 @@ impl SlidingCounterState {
     pub open spec fn wf(&self, clk: Clock) -> bool {
         self.current_count <= self.limit_for_period && self.bucket_start.t <= clk.now@ && self.limit_for_period >= 1 && self.bucket_duration.nanos > 0
     }
+    pub fn new(limit_for_period: usize, bucket_duration: Duration, timeout_duration: Duration, clk: &mut Clock) -> (r: Self)
+        requires limit_for_period >= 1, bucket_duration.nanos > 0,
+        ensures r.wf(*final(clk)),   // #starts_with_empty_buckets [C02]
+            r.current_count == 0 && r.previous_count == 0 && r.limit_for_period == limit_for_period && r.bucket_duration == bucket_duration && r.timeout_duration == timeout_duration,   // #keeps_configuration [C02,C15]
+    //@body SlidingCounterState::new
+
     pub fn maybe_rotate_bucket(&mut self, now: Instant)
         requires now.t >= old(self).bucket_start.t, old(self).bucket_duration.nanos > 0,
         ensures
@@ -160,12 +231,16 @@ impl RateLimiterStateInner {
             RateLimiterStateInner::SlidingCounter(s) => s.wf(clk),
         }
     }
+    pub open spec fn wf_adm(&self, gh: AdmLog, clk: Clock) -> bool {
+        match self { RateLimiterStateInner::SlidingLog(s) => s.wf_adm(gh, clk), _ => true }
+    }
     pub open spec fn timeout(&self) -> Duration {
         match self { RateLimiterStateInner::Fixed(s) => s.timeout_duration, RateLimiterStateInner::SlidingLog(s) => s.timeout_duration, RateLimiterStateInner::SlidingCounter(s) => s.timeout_duration }
     }
-    pub fn try_acquire<Req, Res, E>(&mut self, clk: &mut Clock, Tracked(tr): Tracked<&mut Trace<Req, Res, E>>) -> (r: AcquireResult)
-        requires old(self).wf(*old(clk)),
+    pub fn try_acquire<Req, Res, E>(&mut self, clk: &mut Clock, Tracked(tr): Tracked<&mut Trace<Req, Res, E>>, Tracked(gh): Tracked<&mut AdmLog>) -> (r: AcquireResult)
+        requires old(self).wf(*old(clk)), old(self).wf_adm(*old(gh), *old(clk)),
         ensures
+            final(self).wf_adm(*final(gh), *final(clk)),   // #sliding_log_spacing_kept_by_every_acquisition [C02]
             *final(tr) == (Trace { permits: old(tr).permits + if r == zero() { 1nat } else { 0nat }, ..*old(tr) }),   // #admission_recorded_iff_ok_zero [C02,C15]
             r matches Ok(w) ==> w.nanos <= old(self).timeout().nanos || w.nanos == 0,   // #wait_never_exceeds_timeout [C15]
             final(self).timeout() == old(self).timeout(),   // #configuration_unchanged [C02]
@@ -178,7 +253,7 @@ impl SharedRateLimiter {
         ensures r.state == self.state,   // #clones_share_the_window_state [C02]
     //@derive_clone SharedRateLimiter
 
-    pub fn acquire<Req, Res, E>(&self, clk: &mut Clock, Tracked(tr): Tracked<&mut Trace<Req, Res, E>>) -> (r: Result<Duration, ()>)
+    pub fn acquire<Req, Res, E>(&self, clk: &mut Clock, Tracked(tr): Tracked<&mut Trace<Req, Res, E>>, Tracked(gh): Tracked<&mut AdmLog>) -> (r: Result<Duration, ()>)
         requires old(tr).permits == 0 && old(tr).unguarded == 0 && old(tr).slept == 0,
         ensures
             r is Ok <==> final(tr).permits == 1,   // #admitted_iff_this_task_took_exactly_one_permit [C02,C15]
@@ -201,7 +276,7 @@ impl<Req, Res, E> RateLimiter<Req, Res, E> {
             final(self).limiter == old(self).limiter && final(self).config == old(self).config,   // #frame
     //@body RateLimiter::poll_ready@Service file=lib
 
-    pub fn call(&mut self, req: Req, clk: &mut Clock, Tracked(tr): Tracked<&mut Trace<Req, Res, E>>) -> (result: Result<Res, RateLimiterServiceError<E>>)
+    pub fn call(&mut self, req: Req, clk: &mut Clock, Tracked(tr): Tracked<&mut Trace<Req, Res, E>>, Tracked(gh): Tracked<&mut AdmLog>) -> (result: Result<Res, RateLimiterServiceError<E>>)
         requires old(tr).fresh(), old(self).inner.ready@,
         ensures
             final(tr).calls <= 1 && final(tr).calls == final(tr).permits,   // #reaches_inner_exactly_once_iff_a_permit_was_taken [C02,C15,C20]
